@@ -6,6 +6,7 @@ import (
 	"io"
 	"strconv"
 	"strings"
+	"unicode/utf8"
 
 	"github.com/gkampitakis/go-diff/diffmatchpatch"
 	"github.com/gkampitakis/go-snaps/internal/colors"
@@ -41,6 +42,12 @@ func hasNewLine(b []byte) bool {
 // shouldPrintHighlights checks if the two strings are going to be presented with
 // inline highlights
 func shouldPrintHighlights(a, b string) bool {
+	// the inline diff works on runes: bytes that are not valid UTF-8 all decode to
+	// U+FFFD, so texts differing only in such bytes would produce an empty report
+	if !utf8.ValidString(a) || !utf8.ValidString(b) {
+		return false
+	}
+
 	return !colors.NOCOLOR && a != "" && b != "" && isSingleline(a) && isSingleline(b)
 }
 
